@@ -925,10 +925,34 @@ def history_case(name, rng, tier, variant=None):
     setall(live, B); seq.append("B(%s)" % kind)
     nlin = int(rng.integers(1, 4))
     excL = excF = None
+    rng.uniform()                       # (keeps the random stream of the earlier version)
+    interleave = bool(CURRENT_K % 2 == 1)       # every second history of a component interleaves a second instance
     try:
-        oL, JL = evaluate(live, nlin); seq.append("run, linearize x%d" % nlin)
-        if rng.uniform() < 0.3:
-            oL, JL = evaluate(live); seq.append("again")
+        if interleave:
+            # a second instance of the same component (same names, same sizes, other inputs) is set up, run and linearised between
+            # the analysis of the live problem and its linearisation: instances must not share state
+            with quiet():
+                live.run_model()
+            c2 = suites.component_case(name, rng, nx, ny, sym)
+            all2 = dict(c2["inputs"]); all2.update(c2.get("extra_inputs", {}))
+            try:
+                other = comp_problem(c2["factory"](), all2)
+                if want_jac and c2.get("jac", True):
+                    comp_jacobian(other, c2["outputs"], list(c2["inputs"]))
+            except Exception:
+                pass            # whether the second case itself is admissible is not the subject here
+            seq.append("another instance run and linearised")
+            JL = None
+            if want_jac:
+                Jd = comp_jacobian(live, outs, innames)        # no run_model in between
+                JL = np.concatenate([np.concatenate([Jd[(oo, ii)].ravel() for ii in innames]) for oo in outs])
+            with quiet():
+                live.run_model()
+            oL = flat_cat(comp_outputs(live, outs), outs); seq.append("linearize, run")
+        else:
+            oL, JL = evaluate(live, nlin); seq.append("run, linearize x%d" % nlin)
+            if rng.uniform() < 0.3:
+                oL, JL = evaluate(live); seq.append("again")
     except Exception as ex:
         excL = type(ex).__name__
     try:
@@ -1033,6 +1057,8 @@ def c14_generate(rng, tier):
     nx = int(rng.integers(2, 8)); ny = int(rng.choice([3, 5, 7, 9, 13, 21]))
     wing = str(rng.choice(["rect", "rect", "CRM", "CRM:jig", "CRM:alpha_2.75"]))
     span = float(rng.uniform(2, 40)); chord = float(rng.uniform(0.3, 5))
+    if CURRENT_K % 3 == 2:
+        span = int(rng.integers(2, 40)); chord = int(rng.integers(1, 6))     # whole numbers given as Python ints
     scs = float(rng.choice([0.0, 1.0, rng.uniform(0, 1)])); ccs = float(rng.choice([0.0, 1.0, rng.uniform(0, 1)]))
     off = rng.normal(size=3) * 4 * float(rng.integers(2))
     base = dict(num_x=nx, num_y=ny, wing_type=wing, span_cos_spacing=scs, chord_cos_spacing=ccs, offset=off)
